@@ -50,7 +50,7 @@ func (st *CompatibleSet[T]) add(ht Hint, v T) error {
 
 	// NOTE caches the stored one instead of the given; the lower version than
 	// the already added is not stored.
-	st.cacheSet(ht.String(), [2]interface{}{ht, st.set[ht.Type()][ht.Version().Major()]})
+	st.cacheSet(hintCacheKey(ht.String()), [2]interface{}{ht, st.set[ht.Type()][ht.Version().Major()]})
 
 	switch eht, found := st.typeheadhints[ht.Type()]; {
 	case !found:
@@ -101,7 +101,7 @@ func (st *CompatibleSet[T]) addWithHint(ht Hint, v T) error {
 }
 
 func (st *CompatibleSet[T]) Find(ht Hint) (v T, found bool) {
-	switch _, i, found, foundincache, err := st.cacheGet(ht.String()); {
+	switch _, i, found, foundincache, err := st.cacheGet(hintCacheKey(ht.String())); {
 	case err != nil:
 		return v, false
 	case foundincache:
@@ -112,7 +112,7 @@ func (st *CompatibleSet[T]) Find(ht Hint) (v T, found bool) {
 }
 
 func (st *CompatibleSet[T]) FindByString(s string) (ht Hint, v T, found bool, _ error) {
-	switch i, j, cfound, foundincache, err := st.cacheGet(s); {
+	switch i, j, cfound, foundincache, err := st.cacheGet(hintCacheKey(s)); {
 	case err != nil:
 		return ht, v, false, err
 	case foundincache:
@@ -121,7 +121,7 @@ func (st *CompatibleSet[T]) FindByString(s string) (ht Hint, v T, found bool, _ 
 
 	switch h, err := ParseHint(s); {
 	case err != nil:
-		st.cacheSet(s, err)
+		st.cacheSet(hintCacheKey(s), err)
 
 		return ht, v, false, err
 	default:
@@ -132,7 +132,7 @@ func (st *CompatibleSet[T]) FindByString(s string) (ht Hint, v T, found bool, _ 
 }
 
 func (st *CompatibleSet[T]) FindBytType(t Type) (ht Hint, v T, found bool) {
-	switch ht, i, found, foundincache, err := st.cacheGet(t.String()); {
+	switch ht, i, found, foundincache, err := st.cacheGet(typeCacheKey(t.String())); {
 	case err != nil:
 		return ht, v, false
 	case foundincache:
@@ -143,7 +143,7 @@ func (st *CompatibleSet[T]) FindBytType(t Type) (ht Hint, v T, found bool) {
 }
 
 func (st *CompatibleSet[T]) FindBytTypeString(s string) (ht Hint, v T, found bool, _ error) {
-	switch i, j, cfound, foundincache, err := st.cacheGet(s); {
+	switch i, j, cfound, foundincache, err := st.cacheGet(typeCacheKey(s)); {
 	case err != nil:
 		return ht, v, false, err
 	case foundincache:
@@ -152,7 +152,7 @@ func (st *CompatibleSet[T]) FindBytTypeString(s string) (ht Hint, v T, found boo
 
 	t := Type(s)
 	if err := t.IsValid(nil); err != nil {
-		st.cacheSet(s, err)
+		st.cacheSet(typeCacheKey(s), err)
 
 		return ht, v, false, err
 	}
@@ -175,7 +175,7 @@ func (st *CompatibleSet[T]) Traverse(f func(Hint, T) bool) {
 func (st *CompatibleSet[T]) find(ht Hint) (v T, found bool) {
 	vs, found := st.set[ht.Type()]
 	if !found {
-		st.cacheSet(ht.String(), false)
+		st.cacheSet(hintCacheKey(ht.String()), false)
 
 		return v, false
 	}
@@ -184,9 +184,9 @@ func (st *CompatibleSet[T]) find(ht Hint) (v T, found bool) {
 
 	switch {
 	case !found:
-		st.cacheSet(ht.String(), false)
+		st.cacheSet(hintCacheKey(ht.String()), false)
 	default:
-		st.cacheSet(ht.String(), [2]interface{}{ht, v})
+		st.cacheSet(hintCacheKey(ht.String()), [2]interface{}{ht, v})
 	}
 
 	return v, found
@@ -195,7 +195,7 @@ func (st *CompatibleSet[T]) find(ht Hint) (v T, found bool) {
 func (st *CompatibleSet[T]) findBytType(t Type) (ht Hint, v T, found bool) {
 	vs, found := st.typeheads[t]
 	if !found {
-		st.cacheSet(t.String(), false)
+		st.cacheSet(typeCacheKey(t.String()), false)
 
 		return ht, v, false
 	}
@@ -203,7 +203,7 @@ func (st *CompatibleSet[T]) findBytType(t Type) (ht Hint, v T, found bool) {
 	ht = st.typeheadhints[t]
 	v = vs
 
-	st.cacheSet(t.String(), [2]interface{}{ht, v})
+	st.cacheSet(typeCacheKey(t.String()), [2]interface{}{ht, v})
 
 	return ht, v, true
 }
@@ -241,4 +241,15 @@ func (st *CompatibleSet[T]) cacheSet(s string, v interface{}) {
 	}
 
 	st.cache.Set(s, v, 0)
+}
+
+// NOTE the lookups by hint string and by type string share the one cache; their
+// keys are kept apart, or the cached result (or error) of the one is returned
+// to the other for the same string.
+func hintCacheKey(s string) string {
+	return "h:" + s
+}
+
+func typeCacheKey(s string) string {
+	return "t:" + s
 }
